@@ -78,7 +78,7 @@ PROPS = {
             "Serde.v (specification of serde_derive + serde_json for structs, Option, Vec, HashMap, untagged enums, i32/String/Value) validated on this run by RunC15.corr against graphql_client built from the working tree, through from_str and from_value",
             "Envelope.display_error is a hand model of `impl Display for Error / PathFragment` (tied by CDisplay cases); i32::to_string is modelled by Coq's decimal printer",
             "T = serde_json::Value stands for the data type (opaque JSON in the model)",
-            "round trip deserialize(serialize(r)) = r: evaluated in the model and observed on the implementation for every generated body (RunC15.model_roundtrip / prop_roundtrip); not yet a universally quantified theorem",
+            "round trip deserialize(serialize(r)) = r: a theorem over Serde.ser / Serde.deser for every value satisfying Envelope.wt_response / wt_error (which rvalue trees are values of the Rust types: i32 members, a HashMap as its key-sorted entry list, Data any non-null JSON), together with the theorem that every value deser returns satisfies them; the same round trip is observed on the implementation for every generated body (prop_roundtrip). Serde.ser writes a HashMap in key order: Rust's iteration order is arbitrary, and the theorem does not depend on it only because serde_json reads objects order-independently (claim walk, insert_kv)",
         ],
         assumptions=["bodies have unique keys per object", "path indices and line/column are in i32 range (the declared field types)"],
     ),
